@@ -157,7 +157,8 @@ pub fn random_char(rng: &mut StdRng) -> char {
             return if rng.gen_bool(0.5) { ['<', '>', '&', '"', '\'', '/', '=', ']', '!', '-', ';', '#'][rng.gen_range(0 .. 12)] } else { rng.gen_range(b'a' ..= b'z') as char }
         }
         "control" => {
-            return if rng.gen_bool(0.4) { char::from_u32(rng.gen_range(1u32 ..= 0x1f)).unwrap() } else if rng.gen_bool(0.2) { ['\u{7f}', '\u{85}', '\u{9f}'][rng.gen_range(0 .. 3)] } else { rng.gen_range(b'a' ..= b'z') as char }
+            // (U+0000 is filtered out again by every format that cannot carry it)
+            return if rng.gen_bool(0.4) { char::from_u32(rng.gen_range(0u32 ..= 0x1f)).unwrap() } else if rng.gen_bool(0.2) { ['\u{7f}', '\u{85}', '\u{9f}'][rng.gen_range(0 .. 3)] } else { rng.gen_range(b'a' ..= b'z') as char }
         }
         "nonascii" => {
             return if rng.gen_bool(0.6) { ['é', 'ß', 'Ж', '日', '本', '😀', '\u{a0}', '\u{ff}', '\u{100}', '\u{fffd}', '\u{2028}', '\u{10ffff}'][rng.gen_range(0 .. 12)] } else { rng.gen_range(b'a' ..= b'z') as char }
